@@ -92,6 +92,12 @@ func vfC08Oracle(in *vfGWInst, evFull string, pre, post *vfSnap) {
 			if f[0] == "prune" && f[1] == p && f[2] == t {
 				continue // handled below (pruned by the peer)
 			}
+			if (f[0] == "outreset" || f[0] == "outclose") && f[1] == p {
+				// our outbound stream to the peer died: it leaves the mesh with the stream (no PRUNE can be sent, and
+				// none is owed); that is a departure, not a prune, even though the stream is re-opened at once
+				in.count("mesh_member_lost_with_its_outbound_stream")
+				continue
+			}
 			if !still { // left the topic
 				m.oblige(p, t, pre.Now, params.UnsubscribeBackoff)
 				in.count("obligation_leave")
@@ -137,7 +143,7 @@ func vfC08Oracle(in *vfGWInst, evFull string, pre, post *vfSnap) {
 			if !sent && strings.Contains(post.Control[p], "PRUNE["+t) {
 				sent = true
 			}
-			if !sent && post.Queues[p] && !g.gated[p] { // a gated write may hold the reply in flight
+			if !sent && post.Queues[p] && !g.gated[p] && g.fakes[p].outAlive() { // a gated write may hold the reply in flight; without a live stream it waits in the queue
 				in.bad("c08:no-prune-reply", "GRAFT for %s from backed-off %s was not answered with a PRUNE", t, p)
 			}
 			if g.cfg.Scoring {
@@ -197,6 +203,8 @@ func vfC08Scenarios(thorough bool) []*vfGWScenario {
 	mk("joined", "d2", 0, append(append([]string{}, prefix...), "join:t"), []string{"leave:t", "join:t", "hb", "graft:a:t", "prune:a:t:8", "prune:c:t", "graft:c:t", "disc:a", "conn:a", "sub:a:t", "adv:900", "adv:3100", "adv:14000"})
 	mk("retry", "d2", 1, append(append([]string{}, prefix...), "join:t"), []string{"leave:t", "join:t", "hb", "gate:a", "ungate:a", "prune:a:t:60", "graft:a:t", "score:a:-1", "score:a:0", "adv:2100"})
 	mk("tight", "d2tight", 0, append(append([]string{}, prefix...), "join:t", "hb"), []string{"leave:t", "join:t", "hb", "prune:a:t", "prune:b:t", "prune:c:t:60", "graft:a:t", "adv:1100", "adv:4100", "adv:14000"})
+	// a peer under backoff goes away and comes back inside the window (the backoff has to outlive its streams)
+	mk("tight-return", "d2tight", 0, append(append([]string{}, prefix...), "join:t", "hb"), []string{"hb", "prune:a:t", "prune:a:t:60", "disc:a", "conn:a", "sub:a:t", "outreset:a", "graft:a:t", "adv:1100", "leave:t", "join:t"})
 	return out
 }
 
